@@ -463,7 +463,6 @@ class Command(Accessible):
         """return a clone of ourselfs with inherited properties"""
         res = type(self)(**kwds)
         res.name = self.name
-        self.fixExport()
         res.func = self.func
         res.init(properties)
         res.init(res.ownProperties)
@@ -497,6 +496,7 @@ class Command(Accessible):
 
     def finish(self, modobj=None):
         """ensure consistency"""
+        self.fixExport()
         self.datatype = CommandType(self.argument, self.result)
 
     def setProperty(self, key, value):
